@@ -1435,9 +1435,18 @@ class ClientObservation:
         register_errback are around; once their deprecations are acted on,
         dropping the asynchronous iterator will automatically cancel the
         observation.
+
+        Cancelling an observation that is already cancelled (which includes one
+        that has ended, or is just being ended, with an error) does nothing.
         """
 
-        assert not self.cancelled, "ClientObservation cancelled twice"
+        if self.cancelled:
+            # Nothing left to cease -- in particular when an errback cancels
+            # the observation whose end it is being told: error() cancels it
+            # itself once the errbacks have run, and whoever delivered the
+            # error (the transport, or the sweep of a shutdown) must not be
+            # the one to trip over that.
+            return
 
         # make sure things go wrong when someone tries to continue this
         self.errbacks = None
